@@ -5,6 +5,6 @@ patch=$1; shift
 cd /repo || exit 9
 git diff --quiet || { echo "repo dirty"; exit 9; }
 git apply "$patch" || { echo "patch does not apply"; exit 9; }
-( cd /verif && "$@" ); rc=$?
+( cd /verif && VERIF_OUT=/root/scratch/mutout/direct "$@" ); rc=$?
 git -C /repo checkout -- . 
 exit $rc
